@@ -14,7 +14,9 @@ EXPLANATION = (
     "independence is in the types: every collection-typed IR field is a BTreeMap keyed by u32 / LexicalId or a BTreeSet, the hash input's reference set "
     "is a BTreeSet<SerializedValue>, and the IR builders insert each element under the element's own id(); (R3) TypeId::compute_from_dyn hashes exactly "
     "{VERSION, layout, referenced} with UUIDv5 under the layout's namespace, and the work-list expands a referenced type only when its layout was newly "
-    "inserted (termination on recursive types); (R4) the hand-written Serialize/Deserialize pairs of the introspection records agree on ids, tags, field "
+    "inserted (termination on recursive types) and, conversely, no path bypasses Compute::add for a popped reference or add_references for a new layout; "
+    "(R5) in the 26 hand-written Introspectable impls of the built-in type constructors the types whose lexical ids the layout names are exactly the types "
+    "add_references adds; (R4) the hand-written Serialize/Deserialize pairs of the introspection records agree on ids, tags, field "
     "identity, required-ness and unknown-id handling (same engine as C16). Not decided: collision freedom of UUIDv5, that macro and code generator "
     "produce the same IR for a schema."
 )
@@ -199,6 +201,8 @@ def run(rep):
     ins = [c for c in ad.calls if c.name == "insert" and any(x == "self.referenced" for x in ad.describe(c.args[0]))]
     rep.check(len(ins) == 1 and ins[0].dest == [0], "C20-R3", ad.def_, "add-returns-newly-inserted", "Compute::add must return whether the layout was newly inserted into the ordered set", detail={})
 
+    r5(rep, prog)
+
     # ---- R4 record round trip --------------------------------------------------------------------------------
     C = pairs.collect(prog)
     n = 0
@@ -209,3 +213,33 @@ def run(rep):
         if k:
             n += 1
     rep.floor("C20-R4", "introspection record types", n, 15)
+
+
+def r5(rep, prog):
+    """hand-written Introspectable impls of the built-in type constructors: every type whose lexical id goes into the layout
+    is also added to the references (and nothing else) — otherwise a type reachable only through that position does not
+    influence the id of anything that contains it"""
+    n = 0
+    for imp in prog.impls:
+        if not (imp.get("trait") or "").endswith("::Introspectable") or imp["crate"] != "aldrin_core" or "::test" in imp["def"]:
+            continue
+        fns = {it["name"]: prog.body(it["def"]) for it in imp["items"] if it["kind"] == "fn"}
+        lay, ar = fns.get("layout"), fns.get("add_references")
+        if lay is None or ar is None or any(x and ("derive" in str(x) or "Introspectable" in str(x)) for x in (lay.exp, ar.exp)):
+            continue   # derived impls are C16-R2's business (macro_rules families such as impl_tuple / impl_vec are hand-written)
+        L = set()
+        for b in [lay] + prog.closures_of(lay.def_):
+            for c in b.calls:
+                if c.name == "lexical_id":
+                    L.add(c.self_ty or (c.gargs[0] if c.gargs else "?"))
+        A = set()
+        for b in [ar] + prog.closures_of(ar.def_):
+            for c in b.calls:
+                if (c.name == "add" and "References" in (c.callee or "")) or (c.name == "new" and "DynIntrospectable" in (c.callee or "")):
+                    A.add(c.gargs[-1] if c.gargs else "?")
+        if not L and not A:
+            continue
+        n += 1
+        rep.check(L == A, "C20-R5", ar.def_, "references-cover-layout", "%s: the layout names the lexical ids of %s but add_references adds %s — a type in the uncovered position never enters the hashed reference set" % (imp["self"], sorted(L), sorted(A)),
+                  line=ar.span, detail={"layout": sorted(L), "references": sorted(A)})
+    rep.floor("C20-R5", "hand-written Introspectable impls with type arguments", n, 20)
